@@ -132,4 +132,53 @@ example : (Routine.mk "w" none [] [] [] [] [⟨"U", .additive, .sym "l.U"⟩] []
 example : Graph.Before (childGraph ["a", "b"] [(⟨some "a", "out"⟩, ⟨some "b", "in"⟩), (⟨some "b", "out"⟩, ⟨some "a", "in"⟩)]) "a" "a" :=
   Graph.Before.trans (b := "b") (Graph.Before.edge (by decide)) (Graph.Before.edge (by decide))
 
+/-! ### resource types under sequence kinds (the table harness/props/c17.py walks on the real code) -/
+
+/-- a `qubits` resource under a non-constant sequence, or a resource of type `other`, of the only child of a repeated routine: the
+    repetition step produces NO result (and, by `C17_wrapper_assertions_hold` / `processRepeatedResources_error`, what it raises on a
+    soundly wired tree is bartiq's own compilation error) — whatever the other resources are and wherever the resource is listed -/
+theorem C17_unprocessable_resource_never_compiles (rep : Repetition) (rs : List Resource) (cn : String)
+    (childRes : List (String × ResTy)) (nt : String × ResTy) (hm : nt ∈ childRes) (hu : unprocessable rep.seq nt.2 = true) :
+    ∀ out, processRepeatedResources rep rs [(cn, childRes)] ≠ .ok out := by
+  intro out
+  unfold processRepeatedResources
+  simp only
+  split
+  · intro h; cases h
+  · apply foldlM_never_ok_of_mem _ nt _ childRes hm
+    intro b o
+    obtain ⟨n, t⟩ := nt
+    cases t with
+    | additive => simp [unprocessable] at hu
+    | multiplicative => simp [unprocessable] at hu
+    | other => simp [throw, throwThe, MonadExceptOf.throw]
+    | qubits =>
+      cases hs : rep.seq with
+      | constant m => rw [hs] at hu; simp [unprocessable] at hu
+      | arithmetic a d => simp [throw, throwThe, MonadExceptOf.throw]
+      | geometric r => simp [throw, throwThe, MonadExceptOf.throw]
+      | closedForm s p n => simp [throw, throwThe, MonadExceptOf.throw]
+      | custom t i => simp [throw, throwThe, MonadExceptOf.throw]
+
+
+/-- … and on a wrapper whose assertions hold (what `C17_wrapper_assertions_hold` gives for every soundly wired tree) the outcome is an
+    error that is NOT an internal exception: bartiq's own refusal, for every sequence kind and every position of the resource -/
+theorem C17_unprocessable_resource_is_own_error (rep : Repetition) (rs : List Resource) (cn : String)
+    (childRes : List (String × ResTy)) (nt : String × ResTy) (hm : nt ∈ childRes) (hu : unprocessable rep.seq nt.2 = true)
+    (hit : rep.seq.iteratorOK = true) (hok : rs.all (repResourceOK cn childRes) = true) :
+    ∃ e, processRepeatedResources rep rs [(cn, childRes)] = .error e ∧ e.isInternal = false := by
+  cases h : processRepeatedResources rep rs [(cn, childRes)] with
+  | ok out => exact absurd h (C17_unprocessable_resource_never_compiles rep rs cn childRes nt hm hu out)
+  | error e => exact ⟨e, rfl, processRepeatedResources_error hit hok h⟩
+
+/-- the one exception: `qubits` under a CONSTANT sequence is skipped (the wrapper carries no resource of that name) -/
+theorem C17_qubits_under_constant_skipped (cnt m : Expr) (cn n : String) :
+    processRepeatedResources ⟨cnt, .constant m⟩ [] [(cn, [(n, .qubits)])] = .ok [] := by
+  simp [processRepeatedResources, List.foldlM, pure, Except.pure, bind, Except.bind]
+
+-- non-vacuity: a qubits resource listed AFTER an additive one under an arithmetic sequence
+example : unprocessable (.arithmetic (.num 1) (.num 2)) ResTy.qubits = true ∧
+    (("anc", ResTy.qubits) ∈ [("T", ResTy.additive), ("anc", ResTy.qubits)]) := by
+  simp [unprocessable]
+
 end Bartiq
